@@ -58,7 +58,7 @@ abbrev TypeTextOK (C : TySyms) (S : List (List Nat)) : Prop :=
   (∀ t ∈ S, t.contains 32 = true → t = [46, 32]) ∧ S.contains [46] = false ∧
   S.contains [40] = true ∧ S.contains [41] = true ∧
   (∀ t ∈ S, [40].isPrefixOf t = true → t = [40]) ∧
-  (∀ t ∈ S, [41].isPrefixOf t = true → t = [41] ∨ isWs ((t.drop 1).headD 0) = false ∧ (t.drop 1).headD 0 ≠ 41 ∧ (t.drop 1).headD 0 ≠ 44 ∧ (t.drop 1).headD 0 ≠ 58 ∧ (t.drop 1).headD 0 ≠ 46) ∧
+  (∀ t ∈ S, [41].isPrefixOf t = true → t = [41] ∨ isWs ((t.drop 1).headD 0) = false ∧ (t.drop 1).headD 0 ≠ 41 ∧ (t.drop 1).headD 0 ≠ 44 ∧ (t.drop 1).headD 0 ≠ 58 ∧ (t.drop 1).headD 0 ≠ 46 ∧ (t.drop 1).headD 0 ≠ 125) ∧
   symOK S C.tick true = true ∧ symOK S C.qtick true = true ∧
   symOK S C.arrowA false = true ∧ symOK S C.arrowU false = true ∧ symOK S C.comma false = true ∧ symTxt S C.comma = [44]
 
